@@ -295,3 +295,159 @@ def ref_parents(lines, delims):
                 p = i
         out.append(p)
     return out
+
+
+# ------------------------------------------------------------------ banner / macro links (C02, C03)
+# Reference semantics of the FINAL parent of every line, banner and macro bodies included: the Python
+# twin of lean/Ccp/Spec/BannerLinks.lean (`specParentFull`), written from the regexes of the format, not
+# from the model; validated against the real code on random banner/macro-heavy configs before the Lean
+# proof was written (notes/design_notes.json, C02).
+def banner_stretch(lines, b):
+    """how many lines after line b become its children because b starts a banner: the body and the
+    closing line (first later line containing the delimiter); to the end if there is none"""
+    t = lines[b]
+    if not BANNER_RE.search(t):
+        return 0
+    m = BANNER_DELIM_RE.search(t)
+    if m is None:
+        return 0
+    d = m.group("bchar")
+    if t.count(d) >= 2:
+        return 0
+    n = 0
+    for j in range(b + 1, len(lines)):
+        n += 1
+        if d in lines[j].strip():
+            break
+    return n
+
+
+def macro_stretch(lines, m):
+    """… because m is a `macro name` line: up to and including the first line that is `@`"""
+    if lines[m][:11] != "macro name ":
+        return 0
+    n = 0
+    for j in range(m + 1, len(lines)):
+        n += 1
+        if lines[j].rstrip() == "@":
+            break
+    return n
+
+
+def owners(lines, ios):
+    """(macro owner or None, banner owner or None) of every line: the LAST start before the line whose
+    stretch reaches it"""
+    bs = [banner_stretch(lines, q) for q in range(len(lines))]
+    ms = [macro_stretch(lines, q) if ios else 0 for q in range(len(lines))]
+    out = []
+    for i in range(len(lines)):
+        mo = next((q for q in range(i - 1, -1, -1) if i - q <= ms[q]), None)
+        bo = next((q for q in range(i - 1, -1, -1) if i - q <= bs[q]), None)
+        out.append((mo, bo))
+    return out
+
+
+def ref_parents_full(lines, ios, delims):
+    """macro owner, else banner owner, else the indentation rule"""
+    base = ref_parents(lines, delims)
+    return [mo if mo is not None else bo if bo is not None else base[i]
+            for i, (mo, bo) in enumerate(owners(lines, ios))]
+
+
+def link_features(lines, ios, delims):
+    """which of the situations the full link specification talks about occur in this config"""
+    f = set()
+    n = len(lines)
+    bs = [banner_stretch(lines, q) for q in range(n)]
+    ms = [macro_stretch(lines, q) if ios else 0 for q in range(n)]
+    base = ref_parents(lines, delims)
+    own = owners(lines, ios)
+    for q in range(n):
+        if bs[q]:
+            end = q + bs[q]
+            if BANNER_DELIM_RE.search(lines[q]).group("bchar") not in lines[end].strip():
+                f.add("banner:unterminated")
+            elif lines[end][:1].isspace():
+                f.add("banner:indented-close")
+            if any(bs[r] for r in range(q + 1, end + 1)):
+                f.add("banner:start-in-banner")
+            if any(bs[r] and r + bs[r] > end for r in range(q + 1, end + 1)):
+                f.add("banner:overlap-beyond-end")
+            if any(ms[r] for r in range(q + 1, end + 1)):
+                f.add("macro-start-in-banner")
+        if ms[q]:
+            end = q + ms[q]
+            if lines[end].rstrip() != "@":
+                f.add("macro:unterminated")
+            if any(bs[r] for r in range(q + 1, end + 1)):
+                f.add("banner-start-in-macro")
+            if any(bs[r] and r + bs[r] > end for r in range(q + 1, end + 1)):
+                f.add("banner-outlives-macro")
+            if any(ms[r] for r in range(q + 1, end + 1)):
+                f.add("macro:start-in-macro")
+    for i, (mo, bo) in enumerate(own):
+        o = mo if mo is not None else bo
+        if o is not None and base[i] != o:
+            f.add("body:reparented")
+        if o is not None and base[i] not in (i, o) and own[base[i]] != (None, None):
+            f.add("body:deeper-under-body-line")
+        if o is None and base[i] != i and own[base[i]] != (None, None):
+            f.add("after:parent-is-body-line")
+        if mo is not None and bo is not None:
+            f.add("macro-beats-banner")
+    return f
+
+
+# symbols of the exhaustive small-pattern stream: two banner starts with different delimiters, a macro start,
+# the three kinds of closing line (plain, indented, embedded), body lines at three depths, a blank
+LINK_SYMBOLS = ["banner motd ^", "banner exec #", "macro name m", "^", " ^", "x # y", "@", " a", "  b", "c", ""]
+
+
+def link_pattern_configs(maxlen, symbols=None):
+    symbols = LINK_SYMBOLS if symbols is None else symbols
+    for n in range(1, maxlen + 1):
+        for seq in itertools.product(symbols, repeat=n):
+            if any(s[:6] in ("banner", "macro ") for s in seq):
+                yield list(seq)
+
+
+LINK_TOKENS = [
+    "banner motd ^", "banner exec #", "banner login ^C", "set banner motd $", "banner motd ^ one ^", "banner motd",
+    "banner  lcd ~", "aaa authentication fail-message ^", "banner incoming @", "banner telnet !",
+    "macro name m", "macro name  n x", " macro name no", "macro name ",
+    "^", " ^", "  ^ tail", "#", " #", "x # y", "^C", "$", "~", "@", "@ ", "@\t", " @", "@x", "!", " ! c", "! c",
+    " a", "  b", "   c", " d", "e", "interface X", " shutdown", "  deeper", "", " ", "  ", "\ta", "  b",
+]
+
+
+def rand_link_config(rng, delims):
+    """random sequence over tokens that start, continue and close banner / macro stretches at all depths"""
+    n = rng.choice([2, 3, 4, 5, 6, 8, 10, 14])
+    out = []
+    for _ in range(n):
+        r = rng.random()
+        if r < 0.22:
+            out.append(rng.choice(LINK_TOKENS[:14]))
+        elif r < 0.5:
+            out.append(rng.choice(LINK_TOKENS[14:31]))
+        elif r < 0.9:
+            out.append(rng.choice(LINK_TOKENS[31:]))
+        else:
+            out.append(rand_plain_line(rng, delims))
+    return out
+
+
+def rand_nested_config(rng, delims):
+    """blocks of rand_banner_block / rand_macro_block spliced INTO one another, followed by dedenting tails"""
+    lines = []
+    for _ in range(rng.choice([1, 2, 3])):
+        r = rng.random()
+        blk = rand_banner_block(rng, delims) if r < 0.55 else rand_macro_block(rng) if r < 0.85 else rand_config(rng, 5, True, delims)
+        if rng.random() < 0.6 and len(blk) > 1:
+            k = rng.randrange(1, len(blk) + 1)
+            inner = rand_banner_block(rng, delims) if rng.random() < 0.6 else rand_macro_block(rng)
+            blk[k:k] = inner[: rng.choice([1, 2, 3, 9])]
+        lines += blk
+        if rng.random() < 0.6:
+            lines += [rng.choice(["  deep", " x", "y", "   z", " ! c", "", "    w"]) for _ in range(rng.choice([1, 2, 3]))]
+    return lines
